@@ -146,11 +146,13 @@ theorem addTable_lenInv {d} {s s' : Schema} {n src e} (h : LenInv d s) (hn : src
 theorem addEntity_inv {s s' : Schema} {t e r} (h : Inv s) (hs : addEntity s t e r = .ok s') : Inv s' := by
   unfold addEntity at hs
   split at hs; · cases hs
+  split at hs; · cases hs
   cases hs
   exact updTable_inv _ _ h
 
 theorem addEntity_lenInv {d} {s s' : Schema} {t e r} (h : LenInv d s) (hs : addEntity s t e r = .ok s') : LenInv d s' := by
   unfold addEntity at hs
+  split at hs; · cases hs
   split at hs; · cases hs
   cases hs
   exact updTable_lenInv _ _ (fun _ => rfl) h
